@@ -96,3 +96,24 @@ End Counts.
 
 Lemma box_pc_dim_guard_spec d : box_pc_dim_guard d = true <-> (d > 3)%Z.
 Proof. unfold box_pc_dim_guard. rewrite Z.gtb_lt. lia. Qed.
+
+(* ------------------------------------------------------------------ which edge a polyline sample is taken on
+   The deterministic core of "the share of samples per edge follows length": from the test generated from the
+   source, the fallback (all samples on the default edge) is taken exactly when there is at most ONE edge; with
+   two or more edges the edge of sample i is the i-th index returned by choice(NE, size=n, p = lengths/sum)
+   (C19_probabilities_polyline says what that p is). *)
+Lemma poly_choice_iff NE : (0 <= NE)%Z -> (poly_use_choice NE = true <-> (2 <= NE)%Z).
+Proof. intros H. unfold poly_use_choice. rewrite Z.gtb_lt. lia. Qed.
+
+Lemma poly_edges_drawn_by_choice NE n chosen : (0 <= NE)%Z ->
+  ((2 <= NE)%Z -> poly_edges_used NE n chosen = chosen) /\
+  ((NE <= 1)%Z -> poly_edges_used NE n chosen = repeat poly_default_edge (Z.to_nat n)) /\
+  (NE = 1%Z -> (0 <= poly_default_edge < NE)%Z).
+Proof.
+  intros H. split; [|split].
+  - intros H2. unfold poly_edges_used. destruct (poly_use_choice NE) eqn:E; [reflexivity|].
+    apply (proj2 (poly_choice_iff NE H)) in H2. congruence.
+  - intros H1. unfold poly_edges_used. destruct (poly_use_choice NE) eqn:E; [|reflexivity].
+    apply (poly_choice_iff NE H) in E. lia.
+  - intros ->. unfold poly_default_edge. lia.
+Qed.
